@@ -11,6 +11,7 @@ import WalrusVerif.Model.AEngR
 import WalrusVerif.Model.Header
 import WalrusVerif.Model.Durable
 import WalrusVerif.Model.Fnv
+import WalrusVerif.Model.LogStore
 /-!
 `wdriver`: line-protocol driver.  One request per line on stdin, one reply per line on stdout.
 It runs the very definitions the theorems in `WalrusVerif/Props` are about.
@@ -85,6 +86,11 @@ structure DState where
   /-- `crash k n` arms a process death inside the operation that follows -/
   pendingCrash : Option (Nat × Nat) := none
   fdBackend : Bool := true
+  /-- octopii's log store (C21) -/
+  node : LogStore.Node := {}
+  /-- the bare WAL wrapper (C21): records are the payload names -/
+  wwal : LogStore.Wal String := {}
+  wopen : Bool := false
 
 def replyStr : Meta.Reply → String
   | .exists_ => "EXISTS" | .created => "CREATED" | .rolled => "ROLLED" | .node => "NODE"
@@ -381,6 +387,74 @@ def handleFrame (st : DState) (toks : List String) : Option (DState × String) :
     | none => some (st, "bad-op")
   | _ => none
 
+/-! ### octopii log store (C21) -/
+
+namespace LS
+open LogStore
+def parseId (s : String) : Option LogId :=
+  match s.splitOn ":" with
+  | [i, t] => do some ⟨← i.toNat?, ← t.toNat?⟩
+  | _ => none
+def parseEnt (s : String) : Option Ent :=
+  match s.splitOn ":" with
+  | [i, t, l] => do some ⟨⟨← i.toNat?, ← t.toNat?⟩, ← l.toNat?⟩
+  | _ => none
+def showId : Option LogId → String
+  | none => "-"
+  | some l => s!"{l.index}:{l.term}"
+def fmtState (m : Mem) (peers : AMap Nat Nat) : String :=
+  let ents := (m.log.toArray.qsort (fun a b => a.1 < b.1)).toList
+  let last := match ents.getLast? with | some e => some e.2.id | none => m.purged
+  let ps := (peers.toArray.qsort (fun a b => a.1 < b.1)).toList
+  s!"purged={showId m.purged} last={showId last} vote=" ++
+    (match m.vote with | none => "-" | some v => s!"{v.term}:{v.node}:{if v.committed then 1 else 0}") ++
+    s!" committed={showId m.committed} log=[" ++ ",".intercalate (ents.map fun e => s!"{e.2.id.index}:{e.2.id.term}:{e.2.len}") ++
+    "] peers=[" ++ ",".intercalate (ps.map fun p => s!"{p.1}:{p.2}") ++ "]"
+def fmtOut : Out → String
+  | .ok => "ok" | .okFlushed => "ok flushed=1" | .errClosed => "err:closed" | .panic => "panic"
+  | .state m p => fmtState m p
+def parseOp (toks : List String) : Option Op :=
+  match toks with
+  | ["open"] => some .open_
+  | ["state"] => some .state
+  | ["restart"] => some .restart
+  | ["close"] => some .restart   -- dropping the store inside the process: the same as far as the store can tell
+  | ["kill"] => some .kill
+  | "append" :: es => (es.mapM parseEnt).map Op.append
+  | ["truncate", l] => (parseId l).map Op.truncate
+  | ["purge", l] => (parseId l).map Op.purge
+  | ["vote", v] =>
+    match v.splitOn ":" with
+    | [t, n, c] => do some (.vote ⟨← t.toNat?, ← n.toNat?, c == "1"⟩)
+    | _ => none
+  | ["committed", "none"] => some (.committed none)
+  | ["committed", l] => (parseId l).map fun x => .committed (some x)
+  | ["peer", i, p] => do some (.peer (← i.toNat?) (← p.toNat?))
+  | _ => none
+end LS
+
+def handleLS (st : DState) (toks : List String) : Option (DState × String) :=
+  match toks with
+  | ["ls", "reset"] => some ({ st with node := {}, wwal := {}, wopen := false }, "ok")
+  | ["ls", "wopen"] => some ({ st with wopen := true }, "ok")
+  | ["ls", "wclose"] => some ({ st with wopen := false }, "ok")
+  | ["ls", "wappend", x] =>
+    if st.wopen then some ({ st with wwal := st.wwal.append x }, "ok") else some (st, "err:closed")
+  | ["ls", "wreadall"] =>
+    if st.wopen then
+      let (rs, w) := st.wwal.readAll
+      some ({ st with wwal := w }, "[" ++ ",".intercalate rs ++ "]")
+    else some (st, "err:closed")
+  | "ls" :: rest =>
+    match LS.parseOp rest with
+    | some op =>
+      let q := if LogStore.quirkReadAllConsumes st.node op then "#quirk readAllConsumes\n" else ""
+      let (n, o) := LogStore.step st.node op
+      let wopen := match op with | .restart => false | .kill => false | _ => st.wopen
+      some ({ st with node := n, wopen := wopen }, q ++ LS.fmtOut o)
+    | none => some (st, "bad-op")
+  | _ => none
+
 def step (st : DState) (line : String) : DState × String :=
   let toks := (line.trimAscii.toString.splitOn " ").filter (· ≠ "")
   match handlePure toks with
@@ -394,7 +468,10 @@ def step (st : DState) (line : String) : DState × String :=
       | none =>
         match handleFrame st toks with
         | some r => r
-        | none => (st, "bad-op")
+        | none =>
+          match handleLS st toks with
+          | some r => r
+          | none => (st, "bad-op")
 
 partial def loop (h : IO.FS.Stream) (out : IO.FS.Stream) (st : DState) : IO Unit := do
   let line ← h.getLine
